@@ -67,6 +67,21 @@ pub fn scratch_root() -> PathBuf {
     p
 }
 
+/// Removes scratch directories left behind by processes that no longer exist (a killed check).
+pub fn cleanup_stale_scratch() {
+    let base = scratch_root();
+    let Some(parent) = base.parent() else { return };
+    let Ok(rd) = std::fs::read_dir(parent) else { return };
+    for e in rd.flatten() {
+        let name = e.file_name().to_string_lossy().to_string();
+        if let Some(pid) = name.strip_prefix('p').and_then(|p| p.parse::<u32>().ok()) {
+            if pid != std::process::id() && !Path::new(&format!("/proc/{pid}")).exists() {
+                let _ = std::fs::remove_dir_all(e.path());
+            }
+        }
+    }
+}
+
 pub fn cleanup_scratch() {
     let _ = std::fs::remove_dir_all(scratch_root());
 }
